@@ -113,7 +113,9 @@ pub fn gen(rng: &mut Rng, k: usize, _tier: &str) -> J {
     let mut ctes = vec![];
     let depth = 1 + (k % 3) as u32;
     let root = gen_q(rng, depth, &mut ctes);
-    let sql = format!("WITH {} SELECT k, v FROM {root}", ctes.join(", "));
+    // mostly a projection of the last sub-query; sometimes a set operation of two sub-queries is itself the top-level query
+    let sql = if rng.chance(1, 6) { let other = gen_q(rng, depth.saturating_sub(1), &mut ctes); if other == root { format!("WITH {} SELECT k, v FROM {root}", ctes.join(", ")) } else { format!("WITH {} SELECT k, v FROM {root} UNION SELECT k, v FROM {other}", ctes.join(", ")) } }
+              else { format!("WITH {} SELECT k, v FROM {root}", ctes.join(", ")) };
     json!({"sql": sql, "synthetic": rng.chance(1, 2), "strategy": if rng.chance(1, 2) { "hard" } else { "soft" }, "catalog": rng.below(3)})
 }
 
